@@ -220,6 +220,12 @@ def gen_world(rs: int, P: dict) -> dict:
             # the infrastructure (names, limits and row order) every party has to be told about
             mem0 = rc.sample([s["id"] for s in stations], rc.randint(1, n_st))
             cons.insert(rc.randint(0, len(cons)), {"name": "c%d" % len(cons), "coeffs": {m: 0 for m in mem0}, "limit": float(rc.choice([1, 25, 100]))})
+        if cons and rc.random() < 0.07:
+            # the same aggregate is limited twice (a breaker and the transformer behind it): identical rows, different limits, in
+            # either order
+            src_ = rc.choice([c_ for c_ in cons if any(v_ != 0 for v_ in c_["coeffs"].values())] or cons)
+            cons.insert(rc.randint(0, len(cons)), {"name": "c%d" % len(cons), "coeffs": dict(src_["coeffs"]),
+                                                   "limit": max(1.0, round(src_["limit"] * rc.choice([0.6, 0.8, 1.25, 1.5]), 2))})
         if rc.random() < 0.1:
             # unusual but valid constraint names: glob / regex metacharacters, spaces, numeric-looking, prefixes of each other
             pool = ["I[a]", "Sec*", "c?", "a b", "1", "01", "c", "cc", "A.B", "(x)", "c1|c2", "^p$"]
@@ -531,6 +537,8 @@ def refill_cuts(sc):
 
 
 def valid_refill(sc):
+    if any(s.get("battery_of") is not None for s in sc["sessions"]):
+        return []       # EV objects kept outside the simulator cannot share a battery with one inside a simulator that is reloaded from JSON
     ok = set(refill_cuts(sc))
     return sorted(c for c in (sc.get("refill") or []) if c in ok)
 
